@@ -2,7 +2,6 @@ package include
 
 import (
 	"fmt"
-	"maps"
 	"os"
 	"path/filepath"
 	"sort"
@@ -98,7 +97,7 @@ func (l *Loader) Load(path string) (*ResolvedJournal, []LoadError) {
 		}}
 	}
 
-	return l.loadWithContent(path, string(content), make(map[string]bool))
+	return l.loadWithContent(path, string(content))
 }
 
 func (l *Loader) LoadFromContent(path, content string) (*ResolvedJournal, []LoadError) {
@@ -110,22 +109,33 @@ func (l *Loader) LoadFromContent(path, content string) (*ResolvedJournal, []Load
 			Message: fmt.Sprintf("file too large: %d bytes (max %d)", len(content), limits.MaxFileSizeBytes),
 		}}
 	}
-	return l.loadWithContent(path, content, make(map[string]bool))
+	return l.loadWithContent(path, content)
 }
 
-func (l *Loader) loadWithContent(path, content string, visited map[string]bool) (*ResolvedJournal, []LoadError) {
-	var errors []LoadError
-	limits := l.getLimits()
+// loadState is the state of one resolution: the files on the current include chain (a file
+// included again while it is on the chain is a cycle), and the result that collects every
+// file once, however many directives lead to it.
+type loadState struct {
+	primary string
+	chain   map[string]bool
+	result  *ResolvedJournal
+}
 
-	if len(visited) >= limits.MaxIncludeDepth {
-		return nil, []LoadError{{
-			Kind:    ErrorCycleDetected,
-			Path:    path,
-			Message: fmt.Sprintf("include depth limit exceeded (%d)", limits.MaxIncludeDepth),
-		}}
-	}
+func (l *Loader) loadWithContent(path, content string) (*ResolvedJournal, []LoadError) {
+	var errors []LoadError
 
 	journal, parseErrs := parser.Parse(content)
+	errors = append(errors, parseErrorsToLoadErrors(path, parseErrs)...)
+
+	result := NewResolvedJournal(journal)
+	st := &loadState{primary: path, chain: map[string]bool{path: true}, result: result}
+	errors = append(errors, l.loadIncludes(path, journal, st, 1, nil)...)
+
+	return result, errors
+}
+
+func parseErrorsToLoadErrors(path string, parseErrs []parser.ParseError) []LoadError {
+	var errors []LoadError
 	for _, e := range parseErrs {
 		pos := ast.Position{
 			Line:   e.Pos.Line,
@@ -135,29 +145,42 @@ func (l *Loader) loadWithContent(path, content string, visited map[string]bool) 
 		errors = append(errors, LoadError{
 			Kind:    ErrorParseError,
 			Path:    path,
+			File:    path,
 			Message: e.Message,
 			Range:   ast.Range{Start: pos, End: pos},
 		})
 	}
+	return errors
+}
 
-	result := NewResolvedJournal(journal)
-	visited[path] = true
+// loadIncludes follows the include directives of journal, the file at path, whose includes are at
+// include depth depth (the primary file's includes are at depth 1). top is the directive of the
+// primary file through which path was reached (nil while path is the primary file itself).
+func (l *Loader) loadIncludes(path string, journal *ast.Journal, st *loadState, depth int, top *ast.Range) []LoadError {
+	var errors []LoadError
 
 	for _, inc := range journal.Includes {
+		topRange := inc.Range
+		if top != nil {
+			topRange = *top
+		}
+
 		if IsGlobPattern(inc.Path) {
 			matches, err := l.expandGlob(path, inc.Path)
 			if err != nil {
 				errors = append(errors, LoadError{
 					Kind:    ErrorFileNotFound,
 					Path:    inc.Path,
+					File:    path,
 					Message: err.Error(),
 					Range:   inc.Range,
+					Top:     topRange,
 				})
 				continue
 			}
 
 			for _, matchPath := range matches {
-				subErrors := l.loadSingleInclude(path, matchPath, inc.Range, visited, result)
+				subErrors := l.loadSingleInclude(path, matchPath, inc.Range, topRange, st, depth)
 				errors = append(errors, subErrors...)
 			}
 			continue
@@ -168,95 +191,94 @@ func (l *Loader) loadWithContent(path, content string, visited map[string]bool) 
 			errors = append(errors, LoadError{
 				Kind:    ErrorPathTraversal,
 				Path:    inc.Path,
+				File:    path,
 				Message: fmt.Sprintf("path traversal detected: %s", inc.Path),
 				Range:   inc.Range,
+				Top:     topRange,
 			})
 			continue
 		}
 
-		subErrors := l.loadSingleInclude(path, includePath, inc.Range, visited, result)
+		subErrors := l.loadSingleInclude(path, includePath, inc.Range, topRange, st, depth)
 		errors = append(errors, subErrors...)
 	}
 
-	return result, errors
+	return errors
 }
 
 func (l *Loader) loadSingleInclude(
 	basePath, includePath string,
-	incRange ast.Range,
-	visited map[string]bool,
-	result *ResolvedJournal,
+	incRange, topRange ast.Range,
+	st *loadState,
+	depth int,
 ) []LoadError {
-	var errors []LoadError
 	limits := l.getLimits()
-
-	if visited[includePath] {
-		errors = append(errors, LoadError{
-			Kind:    ErrorCycleDetected,
+	fail := func(kind ErrorKind, message string) []LoadError {
+		return []LoadError{{
+			Kind:    kind,
 			Path:    includePath,
-			Message: fmt.Sprintf("cycle detected: %s includes %s", basePath, includePath),
+			File:    basePath,
+			Message: message,
 			Range:   incRange,
-		})
-		return errors
+			Top:     topRange,
+		}}
 	}
+
+	// re-entering a file of the current include chain is a cycle
+	if st.chain[includePath] {
+		return fail(ErrorCycleDetected, fmt.Sprintf("cycle detected: %s includes %s", basePath, includePath))
+	}
+
+	// reached again along another path: it is part of the result already
+	if _, ok := st.result.Files[includePath]; ok {
+		return nil
+	}
+
+	if depth >= limits.MaxIncludeDepth {
+		return fail(ErrorCycleDetected, fmt.Sprintf("include depth limit exceeded (%d)", limits.MaxIncludeDepth))
+	}
+
+	var errors []LoadError
 
 	l.mu.RLock()
-	cached, ok := l.cache[includePath]
+	journal, cached := l.cache[includePath]
 	epoch := l.epoch
 	l.mu.RUnlock()
-	if ok {
-		result.Files[includePath] = cached
-		result.FileOrder = append(result.FileOrder, includePath)
-		return errors
-	}
 
-	info, err := os.Stat(includePath)
-	if err != nil {
-		errors = append(errors, LoadError{
-			Kind:    ErrorFileNotFound,
-			Path:    includePath,
-			Message: fmt.Sprintf("cannot read included file: %v", err),
-			Range:   incRange,
-		})
-		return errors
-	}
+	if !cached {
+		info, err := os.Stat(includePath)
+		if err != nil {
+			return fail(ErrorFileNotFound, fmt.Sprintf("cannot read included file: %v", err))
+		}
 
-	if info.Size() > limits.MaxFileSizeBytes {
-		errors = append(errors, LoadError{
-			Kind:    ErrorFileTooLarge,
-			Path:    includePath,
-			Message: fmt.Sprintf("included file too large: %d bytes (max %d)", info.Size(), limits.MaxFileSizeBytes),
-			Range:   incRange,
-		})
-		return errors
-	}
+		if info.Size() > limits.MaxFileSizeBytes {
+			return fail(ErrorFileTooLarge, fmt.Sprintf("included file too large: %d bytes (max %d)", info.Size(), limits.MaxFileSizeBytes))
+		}
 
-	incContent, err := os.ReadFile(includePath)
-	if err != nil {
-		errors = append(errors, LoadError{
-			Kind:    ErrorFileNotFound,
-			Path:    includePath,
-			Message: fmt.Sprintf("cannot read included file: %v", err),
-			Range:   incRange,
-		})
-		return errors
-	}
+		incContent, err := os.ReadFile(includePath)
+		if err != nil {
+			return fail(ErrorFileNotFound, fmt.Sprintf("cannot read included file: %v", err))
+		}
 
-	verifhook.At("loader.read", includePath)
-	subResult, subErrors := l.loadWithContent(includePath, string(incContent), visited)
-	errors = append(errors, subErrors...)
+		verifhook.At("loader.read", includePath)
+		var parseErrs []parser.ParseError
+		journal, parseErrs = parser.Parse(string(incContent))
+		errors = append(errors, parseErrorsToLoadErrors(includePath, parseErrs)...)
 
-	if subResult != nil && subResult.Primary != nil {
 		l.mu.Lock()
 		if l.epoch == epoch {
-			l.cache[includePath] = subResult.Primary
+			l.cache[includePath] = journal
 		}
 		l.mu.Unlock()
-		result.Files[includePath] = subResult.Primary
-		result.FileOrder = append(result.FileOrder, includePath)
-		maps.Copy(result.Files, subResult.Files)
-		result.FileOrder = append(result.FileOrder, subResult.FileOrder...)
 	}
+
+	st.result.Files[includePath] = journal
+	st.result.FileOrder = append(st.result.FileOrder, includePath)
+
+	// a cached file is followed like a freshly read one: the cache only saves parsing
+	st.chain[includePath] = true
+	errors = append(errors, l.loadIncludes(includePath, journal, st, depth+1, &topRange)...)
+	delete(st.chain, includePath)
 
 	return errors
 }
